@@ -16,6 +16,7 @@ import (
 	"sort"
 	"strings"
 	"sync"
+	"sync/atomic"
 	"time"
 
 	"verif/harness/internal/dbx"
@@ -194,6 +195,7 @@ func (im *imager) onFsPre(op, name string, n int) {
 	im.seen[key] = true
 	img := Image{N: im.n, Dir: d, Op: op, File: filepath.Base(name), Prefix: prefix, Files: files, Hash: hash}
 	im.n++
+	crashProgress.Add(1)
 	if im.sink != nil {
 		im.sink(img)
 		return
@@ -444,6 +446,7 @@ func (cr *crashRunner) runJob(j crashJob) {
 	cr.mu.Lock()
 	cr.traces = append(cr.traces, tr)
 	cr.outcomes = append(cr.outcomes, oc)
+	crashProgress.Add(1)
 	cr.meta = append(cr.meta, map[string]any{"script": j.script.ID, "image": j.img.N, "variant": j.variant, "level": j.level,
 		"op": j.img.Op, "file": j.img.File, "cfg": j.script.Cfg, "alphabet": j.script.Alphabet, "nkeys": j.script.NKeys})
 	cr.mu.Unlock()
@@ -614,7 +617,7 @@ func cmdCrash(args []string) int {
 			ctl.Record = true
 			tr.Mirror = func(e rec.Event) { ctl.Note("api", e) }
 		}
-		withWatchdog("crash script "+s.ID, 1500*time.Second, func() {
+		withProgressWatchdog("crash script "+s.ID, 900*time.Second, func() int64 { return crashProgress.Load() }, func() {
 			if err := run.open(true); err != nil {
 				res.Err = err.Error()
 				return
@@ -691,5 +694,9 @@ func cmdCrash(args []string) int {
 	writeJSON(join(*out, "summary.json"), summ)
 	return 0
 }
+
+// crashProgress counts images taken and recoveries finished: the workload waits for the recovery
+// pool, so "stuck" means a whole watchdog period without either.
+var crashProgress atomic.Int64
 
 var _ = io.EOF
